@@ -293,31 +293,51 @@ func VerifC08Agreement() {
 		acc = &client.VirtualChannelProposalAccMsg{BaseChannelProposalAcc: accBase, Responder: walletAddr(b.Own)}
 		acc2 = &client.VirtualChannelProposalAccMsg{BaseChannelProposalAcc: accBase2, Responder: walletAddr(b.Own)}
 	}
+	exp := rt.Choice(3)
+	full := rt.Bound("c08full", 0) == 1
+	top := new(big.Int).Lsh(big.NewInt(1), 248)
 	pa := a.Client.VerifDeriveParams(prop, acc)
-	pb := b.Client.VerifDeriveParams(prop, acc)
-	rt.Reach("c08.agree")
-	same := pa.ID() == pb.ID() && pa.ChallengeDuration == pb.ChallengeDuration && rt.BigEq(pa.Nonce, pb.Nonce) &&
-		pa.LedgerChannel == pb.LedgerChannel && pa.VirtualChannel == pb.VirtualChannel && len(pa.Parts) == 2 && len(pb.Parts) == 2
-	for i := 0; same && i < 2; i++ {
-		same = pa.Parts[i][channel.TestBackendID].Equal(pb.Parts[i][channel.TestBackendID])
+	if exp != 0 && !full {
+		rt.Assume(rt.BigLe(top, pa.Nonce)) // bound: nonce digests without leading zero byte
 	}
-	rt.Assert("c08.agree.same-params", same)
-	rt.Assert("c08.agree.order", pa.Parts[0][channel.TestBackendID].Equal(a.Own.Address()) && pa.Parts[1][channel.TestBackendID].Equal(b.Own.Address()))
-	rt.Assert("c08.agree.flags", pa.LedgerChannel == (kind == 0) && pa.VirtualChannel == (kind == 1))
-	// the ID depends on the responder's and on the proposer's nonce share
-	p2 := a.Client.VerifDeriveParams(prop, acc2)
-	rt.Assert("c08.agree.id-depends-on-responder-share", (pa.ID() == p2.ID()) == (accBase.NonceShare == accBase2.NonceShare))
-	p3 := a.Client.VerifDeriveParams(prop2, acc)
-	rt.Assert("c08.agree.id-depends-on-proposer-share", (pa.ID() == p3.ID()) == (base.NonceShare == base2.NonceShare))
-	// accept messages must match the proposal
-	var wrongType client.ChannelProposalAccept = &client.SubChannelProposalAccMsg{BaseChannelProposalAcc: accBase}
-	rt.Assert("c08.acc.wrong-type-refused", a.Client.VerifValidChannelProposalAcc(prop, wrongType) != nil)
-	other := accBase
-	other.ProposalID = gen.ID()
-	var accOther client.ChannelProposalAccept = &client.LedgerChannelProposalAccMsg{BaseChannelProposalAcc: other, Participant: walletAddr(b.Own)}
-	if kind == 1 {
-		accOther = &client.VirtualChannelProposalAccMsg{BaseChannelProposalAcc: other, Responder: walletAddr(b.Own)}
+	switch exp {
+	case 0:
+		pb := b.Client.VerifDeriveParams(prop, acc)
+		rt.Reach("c08.agree")
+		same := pa.ID() == pb.ID() && pa.ChallengeDuration == pb.ChallengeDuration && rt.BigEq(pa.Nonce, pb.Nonce) &&
+			pa.LedgerChannel == pb.LedgerChannel && pa.VirtualChannel == pb.VirtualChannel && len(pa.Parts) == 2 && len(pb.Parts) == 2
+		for i := 0; same && i < 2; i++ {
+			same = pa.Parts[i][channel.TestBackendID].Equal(pb.Parts[i][channel.TestBackendID])
+		}
+		rt.Assert("c08.agree.same-params", same)
+		rt.Assert("c08.agree.order", pa.Parts[0][channel.TestBackendID].Equal(a.Own.Address()) && pa.Parts[1][channel.TestBackendID].Equal(b.Own.Address()))
+		rt.Assert("c08.agree.flags", pa.LedgerChannel == (kind == 0) && pa.VirtualChannel == (kind == 1))
+		rt.Assert("c08.agree.challenge-duration", pa.ChallengeDuration == base.ChallengeDuration)
+		// accept messages must match the proposal
+		var wrongType client.ChannelProposalAccept = &client.SubChannelProposalAccMsg{BaseChannelProposalAcc: accBase}
+		rt.Assert("c08.acc.wrong-type-refused", a.Client.VerifValidChannelProposalAcc(prop, wrongType) != nil)
+		other := accBase
+		other.ProposalID = gen.ID()
+		var accOther client.ChannelProposalAccept = &client.LedgerChannelProposalAccMsg{BaseChannelProposalAcc: other, Participant: walletAddr(b.Own)}
+		if kind == 1 {
+			accOther = &client.VirtualChannelProposalAccMsg{BaseChannelProposalAcc: other, Responder: walletAddr(b.Own)}
+		}
+		rt.Assert("c08.acc.id-must-match", (a.Client.VerifValidChannelProposalAcc(prop, accOther) == nil) == (other.ProposalID == base.ProposalID))
+		rt.Assert("c08.acc.matching-accepted", a.Client.VerifValidChannelProposalAcc(prop, acc) == nil)
+	case 1:
+		// the ID depends on the responder's nonce share
+		p2 := a.Client.VerifDeriveParams(prop, acc2)
+		if !full {
+			rt.Assume(rt.BigLe(top, p2.Nonce))
+		}
+		rt.Reach("c08.agree.responder-share")
+		rt.Assert("c08.agree.id-depends-on-responder-share", (pa.ID() == p2.ID()) == (accBase.NonceShare == accBase2.NonceShare))
+	case 2:
+		p3 := a.Client.VerifDeriveParams(prop2, acc)
+		if !full {
+			rt.Assume(rt.BigLe(top, p3.Nonce))
+		}
+		rt.Reach("c08.agree.proposer-share")
+		rt.Assert("c08.agree.id-depends-on-proposer-share", (pa.ID() == p3.ID()) == (base.NonceShare == base2.NonceShare))
 	}
-	rt.Assert("c08.acc.id-must-match", (a.Client.VerifValidChannelProposalAcc(prop, accOther) == nil) == (other.ProposalID == base.ProposalID))
-	rt.Assert("c08.acc.matching-accepted", a.Client.VerifValidChannelProposalAcc(prop, acc) == nil)
 }
